@@ -47,29 +47,49 @@ theorem C03_run_multi :
 
 /-- **C10.** the labels are computed from the very expressions stored as `Fn_poles`, `Xi_poles`,
     `Phi_poles` (after the last mask), with the user's order range and tolerances; for pLSCF the
-    call is `ordmax − 1`, step 1. -/
+    call is `ordmax − 1`, step 1.  Every class that has a `run` of its own (SSIdat, SSIdat_MS, pLSCF, pLSCF_MS;
+    SSIcov / SSIcov_MS inherit, `WiringClass.C10_run_inherited`) is pinned in full: the three tables (with an
+    `.isSome` guard, so that two missing rows do not compare equal), `ordmin / ordmax / step` and the three
+    tolerances, and nothing else is passed. -/
 theorem C10_sc_apply_wiring :
     (arg "SSIdat" "run" "gen.SC_apply" "Fn" = arg "SSIdat" "run" "return SSIResult" "Fn_poles"
       ∧ arg "SSIdat" "run" "gen.SC_apply" "Xi" = arg "SSIdat" "run" "return SSIResult" "Xi_poles"
       ∧ arg "SSIdat" "run" "gen.SC_apply" "Phi" = arg "SSIdat" "run" "return SSIResult" "Phi_poles"
-      ∧ (arg "SSIdat" "run" "gen.SC_apply" "Fn").isSome)
+      ∧ (arg "SSIdat" "run" "gen.SC_apply" "Fn").isSome ∧ (arg "SSIdat" "run" "gen.SC_apply" "Xi").isSome
+      ∧ (arg "SSIdat" "run" "gen.SC_apply" "Phi").isSome)
     ∧ args "SSIdat" "run" "gen.SC_apply"
       [("ordmin", "self.run_params.ordmin"), ("ordmax", "self.run_params.ordmax"), ("step", "self.run_params.step"),
        ("err_fn", "self.run_params.sc['err_fn']"), ("err_xi", "self.run_params.sc['err_xi']"),
        ("err_phi", "self.run_params.sc['err_phi']")] = true
     ∧ (arg "SSIdat_MS" "run" "gen.SC_apply" "Fn" = arg "SSIdat_MS" "run" "return SSIResult" "Fn_poles"
       ∧ arg "SSIdat_MS" "run" "gen.SC_apply" "Xi" = arg "SSIdat_MS" "run" "return SSIResult" "Xi_poles"
-      ∧ arg "SSIdat_MS" "run" "gen.SC_apply" "Phi" = arg "SSIdat_MS" "run" "return SSIResult" "Phi_poles")
+      ∧ arg "SSIdat_MS" "run" "gen.SC_apply" "Phi" = arg "SSIdat_MS" "run" "return SSIResult" "Phi_poles"
+      ∧ (arg "SSIdat_MS" "run" "gen.SC_apply" "Fn").isSome ∧ (arg "SSIdat_MS" "run" "gen.SC_apply" "Xi").isSome
+      ∧ (arg "SSIdat_MS" "run" "gen.SC_apply" "Phi").isSome)
+    ∧ args "SSIdat_MS" "run" "gen.SC_apply"
+      [("ordmin", "self.run_params.ordmin"), ("ordmax", "self.run_params.ordmax"), ("step", "self.run_params.step"),
+       ("err_fn", "self.run_params.sc['err_fn']"), ("err_xi", "self.run_params.sc['err_xi']"),
+       ("err_phi", "self.run_params.sc['err_phi']")] = true
     ∧ (arg "pLSCF" "run" "gen.SC_apply" "Fn" = arg "pLSCF" "run" "return self.ResultCls" "Fn_poles"
       ∧ arg "pLSCF" "run" "gen.SC_apply" "Xi" = arg "pLSCF" "run" "return self.ResultCls" "Xi_poles"
       ∧ arg "pLSCF" "run" "gen.SC_apply" "Phi" = arg "pLSCF" "run" "return self.ResultCls" "Phi_poles"
-      ∧ (arg "pLSCF" "run" "gen.SC_apply" "Fn").isSome)
+      ∧ (arg "pLSCF" "run" "gen.SC_apply" "Fn").isSome ∧ (arg "pLSCF" "run" "gen.SC_apply" "Xi").isSome
+      ∧ (arg "pLSCF" "run" "gen.SC_apply" "Phi").isSome)
     ∧ args "pLSCF" "run" "gen.SC_apply"
       [("ordmin", "self.run_params.ordmin"), ("ordmax", "self.run_params.ordmax - 1"), ("step", "1"),
        ("err_fn", "self.run_params.sc['err_fn']"), ("err_xi", "self.run_params.sc['err_xi']"),
        ("err_phi", "self.run_params.sc['err_phi']")] = true
+    ∧ (arg "pLSCF_MS" "run" "gen.SC_apply" "Fn" = arg "pLSCF_MS" "run" "return self.ResultCls" "Fn_poles"
+      ∧ arg "pLSCF_MS" "run" "gen.SC_apply" "Xi" = arg "pLSCF_MS" "run" "return self.ResultCls" "Xi_poles"
+      ∧ arg "pLSCF_MS" "run" "gen.SC_apply" "Phi" = arg "pLSCF_MS" "run" "return self.ResultCls" "Phi_poles"
+      ∧ (arg "pLSCF_MS" "run" "gen.SC_apply" "Fn").isSome ∧ (arg "pLSCF_MS" "run" "gen.SC_apply" "Xi").isSome
+      ∧ (arg "pLSCF_MS" "run" "gen.SC_apply" "Phi").isSome)
     ∧ args "pLSCF_MS" "run" "gen.SC_apply"
-      [("ordmin", "self.run_params.ordmin"), ("ordmax", "self.run_params.ordmax - 1"), ("step", "1")] = true := by
+      [("ordmin", "self.run_params.ordmin"), ("ordmax", "self.run_params.ordmax - 1"), ("step", "1"),
+       ("err_fn", "self.run_params.sc['err_fn']"), ("err_xi", "self.run_params.sc['err_xi']"),
+       ("err_phi", "self.run_params.sc['err_phi']")] = true
+    ∧ (["SSIdat", "SSIdat_MS", "pLSCF", "pLSCF_MS"].all fun c =>
+        onlyParams c "run" "gen.SC_apply" ["Fn", "Xi", "Phi", "ordmin", "ordmax", "step", "err_fn", "err_xi", "err_phi"]) = true := by
   decide
 
 /-- **C13 / C04.** the spectral classes pass the user's segment length, estimator and overlap on to
